@@ -312,6 +312,72 @@ func TestVerifC18(t *testing.T) {
 		return
 	}
 
+	// ---- R: rewrap chains.  The payload moves to a new wrapping token k times; after every
+	// hop lookup of the newest token still reports the path that created the RESPONSE, the
+	// older tokens disclose nothing and are refused, and the newest one yields the payload
+	// exactly once.
+	if os.Getenv("VERIF_PART") == "" || os.Getenv("VERIF_PART") == "R" {
+		rcount := 0
+		hopsMax := 3
+		if vout.Thorough() {
+			hopsMax = 5
+		}
+		for _, wk := range []string{"secret", "list", "login"} {
+			for hops := 1; hops <= hopsMax; hops++ {
+				rcount++
+				if !vout.Mine(rcount + 7) {
+					continue
+				}
+				st := get(wk)
+				s := Boot(t, st.img)
+				art := map[string]interface{}{"wrap": wk, "rewraps": hops}
+				toks := []string{st.wrapTok}
+				okChain := true
+				for h := 1; h <= hops; h++ {
+					r := c18Do(s, st, "rewrap", toks[len(toks)-1])
+					res.Add("transitions", 1)
+					if r.disclosed {
+						res.Violate("c18:chain:rewrap-disclosed-payload", fmt.Sprintf("%v: rewrap %d returned the payload", art, h), art)
+					}
+					if !r.ok || r.newTok == "" {
+						res.Violate("c18:chain:rewrap-of-live-token-refused", fmt.Sprintf("%v: rewrap %d of the live wrapping token failed: %s", art, h, r.errTxt), art)
+						okChain = false
+						break
+					}
+					toks = append(toks, r.newTok)
+					l := c18Do(s, st, "lookup", r.newTok)
+					if l.ok && l.crPath != "<no-data>" && l.crPath != st.path {
+						res.Violate("c18:chain:lookup-wrong-creation-path", fmt.Sprintf("%v: after rewrap %d lookup reports creation_path %q, the response was created by %q", art, h, l.crPath, st.path), art)
+					}
+				}
+				if okChain {
+					for _, old := range toks[:len(toks)-1] {
+						for _, k := range []string{"unwrap1", "unwrap3", "cubby", "lookup"} {
+							r := c18Do(s, st, k, old)
+							if r.disclosed {
+								res.Violate("c18:chain:superseded-token-disclosed-payload", fmt.Sprintf("%v: %s with a token that was rewrapped away returned the payload", art, k), art)
+							}
+						}
+					}
+					n := 0
+					for _, k := range []string{"unwrap3", "unwrap1", "unwrap3"} {
+						if c18Do(s, st, k, toks[len(toks)-1]).disclosed {
+							n++
+						}
+					}
+					if n != 1 {
+						res.Violate("c18:chain:payload-not-exactly-once", fmt.Sprintf("%v: three unwrap attempts on the newest token disclosed the payload %d times", art, n), art)
+					}
+				}
+				s.Drain()
+				res.Add("executions", 1)
+				res.Add("chain_runs", 1)
+				res.Distinct("nontrivial", fmt.Sprintf("R|%s|%d", wk, hops))
+				s.Close()
+			}
+		}
+	}
+
 	// ---- E: expiry.  The wrapping token's TTL runs out (stored lease times moved two
 	// hours back, restart, due leases handled) after every prefix of non-consuming calls:
 	// from then on nobody obtains the payload, the token is refused and no record of it or
